@@ -21,7 +21,7 @@ PID = "C33"
 LEVEL = "translation_validation"
 LEAN = ["SaVerif.Props.C33"]
 META = {
-    "text": "A hand-transcribed Lean model of the Session/SessionTransaction snapshot machinery (M-SESS: _take_snapshot/_restore_snapshot/_remove_snapshot, commit/rollback/close of the transaction stack, _register_persistent/_register_altered/_remove_newly_deleted, _expunge_states, reduced flush over one table with a SAVEPOINT stack) is compared step by step with a REAL Session on SQLite (expire_on_commit on and off): lifecycle state, new/dirty/deleted membership, identity key and loaded attribute values of every object, rows seen by the session's connection and by others. The property itself is checked by an independent reference model (rows + per-object state with a snapshot per scope) and a consistency predicate (persistent objects have a row, loaded non-dirty values equal it, deleted objects have none). Lean theorems for ALL model states: a root rollback leaves no transaction, the committed rows and NO loaded value or pending change on any identity-map object (root_rollback_expires_all); a savepoint rollback restores exactly the rows of the SAVEPOINT and pops exactly that transaction (nested_rollback_restores_rows); evaluated coherence of long innermost-first histories; three counterexample theorems.",
+    "text": "A hand-transcribed Lean model of the Session/SessionTransaction snapshot machinery (M-SESS: _take_snapshot/_restore_snapshot/_remove_snapshot, commit/rollback/close of the transaction stack, _register_persistent/_register_altered/_remove_newly_deleted, _expunge_states, reduced flush over one table with a SAVEPOINT stack) is compared step by step with a REAL Session on SQLite (expire_on_commit on and off): lifecycle state, new/dirty/deleted membership, identity key and loaded attribute values of every object, rows seen by the session's connection and by others. The property itself is checked by an independent reference model (rows + per-object state with a snapshot per scope) and a consistency predicate (persistent objects have a row, loaded non-dirty values equal it, deleted objects have none). Lean theorems: (session_rows_invariant, by induction over EVERY history incl. out-of-order handle operations) the transaction stack is always savepoints-on-one-root and whenever no transaction is left the session's connection sees exactly the committed rows (session_end_states: Session.commit()/rollback() always reach that state); for ALL model states: a root rollback leaves no transaction, the committed rows and NO loaded value or pending change on any identity-map object (root_rollback_expires_all); a savepoint rollback restores exactly the rows of the SAVEPOINT and pops exactly that transaction (nested_rollback_restores_rows); evaluated coherence of long innermost-first histories; three counterexample theorems.",
     "note": "The full statement (coherence after every step of every innermost-first history) is NOT proved in Lean; it is carried by the differential run and the oracle. It is false without restrictions - three genuine defects found and replayed on the real code: rolling back an OUTER SessionTransaction while an inner savepoint is open (e.g. an exception leaving `with session.begin():` with a begin_nested() still open) closes the inner one without restoring its snapshot (outer_rollback_counterexample, known finding outer-rollback-skips-inner-snapshot, F20); a primary key switched in the transaction and again inside a released savepoint is restored to the intermediate key by a later rollback (key_switch_merge_counterexample, nested-key-switch-loses-original-key, F21); an object added and key-switched in a rolled-back transaction ends up detached instead of transient (rolled_back_new_object_counterexample, F23). Modelled-not-verified: the unit of work is reduced to one table and single-row INSERT/UPDATE/DELETE; flush failures, relationships, cascades, expunge/merge/refresh APIs and events are not modelled; SQLite via sqlite3 autocommit=False.",
     "technique": "per-step differential correspondence of a hand-transcribed Lean model against a real Session on SQLite + reference-model oracle; Lean theorems on the scope-ending functions for all states and counterexamples by evaluation",
     "design_ref": "DESIGN.md §3 C30-C33 (C33)",
